@@ -357,6 +357,7 @@ def search(ctx):
 
 def replay(ctx, rep):
     from src.scenarios.run_model_no_trade import ScenarioRunnerNoTrade as cls
+    ctx.driver = DRIVER  # vcheck sets it only on the normal path
     rows = load_table(ctx)
     codes = [r[0] for r in rows]
     hits = []
